@@ -78,7 +78,13 @@ def main():
         for ident in tabs.ALL:
             for r in range(3 if thorough else 1):
                 b = gen.build(tabs, ident, rng, maxcount=3)
-                if b is None or len(b.payload) > 1023:
+                if b is None:
+                    # the reference encoder walks the implementation's tables: a layout it cannot lay out (a field that is not a defined
+                    # data field, ...) would silently thin out the corpus -- report it instead
+                    em.violation("C19: no payload can be laid out for identity %s from the library's own tables (a name of its layout is not a defined data field?): the names it generates cannot be described" % ident,
+                                 {"name": ident}, {})
+                    continue
+                if len(b.payload) > 1023:
                     continue
                 try:
                     m = p.RTCMMessage(payload=b.payload)
@@ -101,6 +107,19 @@ def main():
         names["DF404_" + "1" * 4300] = "DF404"
         names["DF404_" + "1" * 4301] = "DF404"
         names["DF404_02_" + "7" * 4400] = "DF404"
+        # the derived labels, pinned here (not read from the table under test): plain and indexed
+        DERIVED = {"PRN": "Derived satellite PRN", "CELLPRN": "Derived satellite PRN", "CELLSIG": "Derived satellite Signal ID"}
+        for key, want in DERIVED.items():
+            for nm in (key, key + "_01", key + "_64", key + "_100"):
+                em.direct_evaluations += 1
+                try:
+                    got = p.datadesc(nm)
+                except Exception as e:  # noqa
+                    got = repr(e)
+                if got != want:
+                    em.violation("C19: datadesc(%r) = %r, expected %r (derived label)" % (nm, got, want), {"name": nm}, {})
+                if nm != key and (p.att2idx(nm), p.att2name(nm)) != (int(nm.split("_")[1]), key):
+                    em.violation("C19: att2idx / att2name wrong for %r" % nm, {"name": nm}, {})
         for nm, key in sorted(names.items()):
             exp, readable = obs_att(p, nm)
             em.add("obs_att T (unpack %s)" % vlib.blob(nm.encode()), exp, [], "attribute name %s (data field %s)" % (nm[:60], key),
@@ -109,7 +128,7 @@ def main():
                    spec=["att", nm])
             em.direct_evaluations += 1
             em.count("kind." + ("plain" if nm == key else "indexed%d" % (nm.count("_") - key.count("_"))))
-            want_desc = tabs.DF[key][3]
+            want_desc = tabs.DF[key][3] if key in tabs.DF else DERIVED.get(key, "<no such data field: %s>" % key)
             try:
                 got = p.datadesc(nm)
             except Exception as e:  # noqa
